@@ -538,6 +538,10 @@ pub struct FuncGen {
 const SPECIAL: [f32; 8] = [0.0, 1.0, -1.0, 0.5, 2.0, -0.25, 3.0, 0.125];
 
 pub fn gen_func(ch: &mut Chooser, max_ops: usize) -> FuncGen {
+    gen_func_with(ch, max_ops, 5)
+}
+
+pub fn gen_func_with(ch: &mut Chooser, max_ops: usize, max_vars: u32) -> FuncGen {
     let mut dag = Dag::default();
     let mut pool: Vec<usize> = vec![];
     // inputs: a drawn subset of x,y,z plus 0..=5 vars
@@ -551,7 +555,7 @@ pub fn gen_func(ch: &mut Chooser, max_ops: usize) -> FuncGen {
     if axes & 4 != 0 {
         pool.push(dag.push(Ex::Z));
     }
-    let nvars = ch.choose("fn_nvars", 6) as usize;
+    let nvars = ch.choose("fn_nvars", max_vars + 1) as usize;
     for i in 0..nvars {
         pool.push(dag.push(Ex::V(i)));
     }
@@ -794,4 +798,23 @@ impl Dag {
         }
         seen
     }
+}
+
+/// Regular-point rule (DESIGN 11.3): `vals` are the f32 values of every node
+/// at a point.  The point is *regular* if no reachable node is NaN and no
+/// zero feeds an operation that is sensitive to the sign of zero (reciprocal,
+/// division, modulo, four-quadrant arctangent).  Evaluator kinds legitimately
+/// differ in the sign of a computed zero, so irregular points are outside
+/// what the value-comparing oracles may demand.
+pub fn regular_point(d: &Dag, reach: &[bool], vals: &[f32]) -> bool {
+    let no_nan = vals.iter().zip(reach).all(|(v, r)| !*r || !v.is_nan());
+    let no_pole = d.n.iter().zip(reach).all(|(e, r)| {
+        !*r || match e {
+            Ex::B(Bin::Atan2, a, b) => vals[*a] != 0.0 && vals[*b] != 0.0,
+            Ex::B(Bin::Div | Bin::Mod, _, b) => vals[*b] != 0.0,
+            Ex::U(Un::Recip, a) => vals[*a] != 0.0,
+            _ => true,
+        }
+    });
+    no_nan && no_pole
 }
